@@ -39,6 +39,26 @@ impl<'a> ExpressionReducer for UndefinedFunctionReducer<'a> {
                 name,
                 self.visit_expressions(args)?,
             )),
+            Expression::ArrayElement(name, indices, expression_type) => {
+                let mapped_indices = self.visit_expressions(indices)?;
+                Ok(Expression::ArrayElement(
+                    name,
+                    mapped_indices,
+                    expression_type,
+                ))
+            }
+            Expression::Parenthesis(child) => {
+                let mapped_child = self.visit_expression_pos(*child)?;
+                Ok(Expression::Parenthesis(Box::new(mapped_child)))
+            }
+            Expression::Property(owner, name, expression_type) => {
+                let mapped_owner = self.visit_expression(*owner)?;
+                Ok(Expression::Property(
+                    Box::new(mapped_owner),
+                    name,
+                    expression_type,
+                ))
+            }
             _ => Ok(expression),
         }
     }
